@@ -5,6 +5,10 @@ import XModel.DfsIter
 # C02 — one assignment runs exactly the downstream tasks, once each, in dependency order
 Model: `Manager.findTaskids` = `Dfs3.toposort (gOf idx) fuel (startOf idx (chainR p))`, a literal
 transcription of `find_taskids` / `toposort` / `_dfs` (`XModel/Dfs3.lean`).
+
+**Which tree.**  The model transcribes `/repo` as it stands now: the pinned commit plus the `fix:` commits recorded in
+`/verif/KNOWN_FINDINGS.json` (status `fixed`).  Where a theorem below rests on repaired code — the repaired `unregister` behind `MInv`, the iterative DFS (no recursion limit: termination on long chains) — it is false of
+the tree as first pinned; the witnesses are kept (defects D2, D3).
 -/
 namespace Properties.C02
 open Store Push Index Manager
